@@ -1182,6 +1182,47 @@ def laws(rng, tier, ctx):
             if got != exp:
                 yield Finding('violation', dict(tag='law-try-back', lines=['(deco stack %s %s %s %s)' % (sig_enc(sig), decos_enc([('try_back', {})]), enc(a), enc(k))]),
                               'try_back gives %r, expected %r' % (got, exp))
+    # (4b) "exactly when f raises" and exceptions that are NOT `Exception`s (KeyboardInterrupt, SystemExit, GeneratorExit, a
+    # user BaseException): the handlers are `except Exception`, so the wrapper raises what f raises instead of returning the
+    # fallback - the text is false of the code there (known finding K8: the wrapper must then raise THE exception object f
+    # raised, after exactly repeat+1 attempts ... nothing else is accepted by the matcher)
+    from pyg_base import try_none, try_zero, try_list
+    from pyg_base._decorators import kwargs_support
+
+    class _Base(BaseException):
+        pass
+    raised_objs = []
+
+    def _mk_base(exc_cls):
+        def fb(a, b=2):
+            Counter.n += 1
+            e = exc_cls('stop')
+            raised_objs.append(e)
+            raise e
+        return fb
+    for exc_cls in (_Base, KeyboardInterrupt, SystemExit, GeneratorExit):
+        for nm, build, attempts_ in (('try_value(repeat=0)', lambda f: try_value(f, value='FB'), 1),
+                                     ('try_value(repeat=2)', lambda f: try_value(f, repeat=2, value='FB'), 1),
+                                     ('try_none', try_none, 1), ('try_zero', try_zero, 1), ('try_list', try_list, 1),
+                                     ('try_back', try_back, 1),
+                                     ('try_none(kwargs_support(f))', lambda f: try_none(kwargs_support(f)), 1)):
+            count += 1
+            fb = _mk_base(exc_cls)
+            w = build(fb)
+            Counter.n = 0
+            del raised_objs[:]
+            try:
+                got = ('returned', w(1))
+            except BaseException as e:        # noqa: the point of the law
+                got = ('raised', e)
+            n = Counter.n
+            if got[0] == 'returned' and n >= 1:
+                continue        # a fallback (or the first argument) was returned: what the text says
+            same = got[0] == 'raised' and raised_objs and got[1] is raised_objs[-1] and n == attempts_
+            yield Finding('violation', dict(tag='law-try-base-exception known:K8' if same else 'law-try-base-exception', lines=[],
+                                            values=[nm, exc_cls.__name__, got[0], n]),
+                          '%s(f)(1) where f raises %s: the text says the fallback is returned, the wrapper %s after %d execution(s) of f'
+                          % (nm, exc_cls.__name__, 'raises that exception' if got[0] == 'raised' else 'returns %r' % (got[1],), n))
     # (5) kwargs_support on a function without **kwargs ignores exactly the undeclared keywords
     from pyg_base._decorators import kwargs_support
     for sig, args, kw in allcalls:
@@ -1254,6 +1295,38 @@ def laws(rng, tier, ctx):
             k5 = k5_only
             yield Finding('violation', dict(case, tag='law-cache-ndarray' if k5 else 'law-cache'),
                           'cached function does not evaluate once per distinct combination / return the first result: %s' % enc(list(failing[0])))
+    # (6b) the PUBLIC entry point `pyg_base.cache` (the property names `cache`; everything above uses `cache_func`): every
+    # signature whose parameters are named like the library's own, and a sample of the plain ones, must be cached like
+    # `cache_func` does - `cache` refuses a function whose FIRST parameter is called self / cls ("cannot cache method"):
+    # known finding K9, recognised only by that very ValueError at decoration time
+    pubsigs = list(reserved_sigs()) + [(['cls', 'b'], [DEFAULTS[0]], None, None), (['cls'], [], None, 'kw'), (['a', 'cls'], [DEFAULTS[1]], 'va', None)]
+    pubsigs += [sigs[i] for i in range(0, len(sigs), 7)]
+    for sig in pubsigs:
+        f = make_fn(sig)
+        count += 1
+        try:
+            c = pyg_base.cache(f)
+        except Exception as e:
+            k9 = bool(sig[0]) and sig[0][0] in ('self', 'cls') and isinstance(e, ValueError) and str(e) == 'cannot cache method'
+            yield Finding('violation', dict(tag='law-cache-public known:K9' if k9 else 'law-cache-public', lines=[], values=[repr(sig), repr(e)]),
+                          'pyg_base.cache(f) for f%r raises %r at decoration time: not "any function f"' % (sig[0], e))
+            continue
+        calls = list(valid_calls(sig))[:6]
+        bad = None
+        n = 0
+        for rnd in (0, 1):
+            for args, kw in calls:
+                exp = f(*args, **kw)
+                Counter.n = 0
+                got = res_val(lambda: c(*args, **kw))
+                n += Counter.n
+                if got != exp:
+                    bad = 'cache(f)(*%r, **%r) = %r, f gives %r' % (args, kw, got, exp)
+        nkeys = len({ref_key(list(a), dict(k)) for a, k in calls})
+        if bad is None and n != nkeys:
+            bad = '%d executions of f for %d distinct combinations called twice' % (n, nkeys)
+        if bad:
+            yield Finding('violation', dict(tag='law-cache-public', lines=[], values=[repr(sig)]), 'pyg_base.cache: ' + bad)
     # (7) a constructor does not change what an EXISTING decorated function answers: x is built and called (a valid call, a
     # raising call, the valid call again), further objects are built on top of x (or of each other) and never called, then x
     # gets the same three calls again: the same replies, and a non-raising call executes f once - or not at all when x holds a
@@ -1315,10 +1388,23 @@ def _k5(f):
     return f.case.get('tag') == 'law-cache-ndarray'
 
 
+def _k8(f):
+    """law 4b: the wrapped function raised a BaseException that is not an Exception and the try_* wrapper raised THAT object
+    after one execution (nothing else - a wrong value, another exception, more executions - is K8)"""
+    return f.kind == 'violation' and f.case.get('tag') == 'law-try-base-exception known:K8' and not f.case.get('lines')
+
+
+def _k9(f):
+    """law 6b: pyg_base.cache refused a function whose first parameter is called self / cls with its own ValueError"""
+    return f.kind == 'violation' and f.case.get('tag') == 'law-cache-public known:K9' and not f.case.get('lines')
+
+
 MATCHERS = {'kwargs_support_drops_undeclared_keyword_of_varkw_function': _k1,
             'loops_consumes_keyword_called_axis': _k4,
             'cache_reevaluates_ndarray_argument': _k5,
-            'pd2np_converts_int_array_to_float': _k6}
+            'pd2np_converts_int_array_to_float': _k6,
+            'try_wrappers_do_not_catch_base_exceptions': _k8,
+            'public_cache_refuses_first_parameter_self_or_cls': _k9}
 
 
 def shrink(case, still_fails):
